@@ -362,6 +362,10 @@ def rule_never_started_kept(A, R, rule, which="interrupted"):
                     okv = all(p[0] == "strategy" for p in vc)
                 if not okv:
                     bad.append(v)
+                elif which == "interrupted" and not ho:
+                    # no output attached: the job was not even validated in this evaluation - the strategy's *current* input list
+                    # is not what it had (that list is the evidence that its inputs changed)
+                    bad.append(v)
             R.ob(rule, "new_history | job never started, ended in %s (output %s) | records written for it are re-inserts of what it had"
                  % (A.sname(s), "set" if ho else "unset"), not bad, site=A.site(bad[0]) if bad else "")
         if which == "skipped":
